@@ -208,6 +208,17 @@ func (p *Packer) packWalkFn(root, src, dst string, tarW *tar.Writer, meta *Meta,
 			return nil
 		}
 
+		// Get the relative path from the initial root directory: the path of
+		// the entry in the archive, which is what the ignore rules apply to
+		// (inside a dereferenced directory it differs from the path above).
+		subpath, err = filepath.Rel(root, strings.Replace(path, src, dst, 1))
+		if err != nil {
+			return fmt.Errorf("failed to get relative path for file %q: %w", path, err)
+		}
+		if subpath == "." {
+			return nil
+		}
+
 		if r := matchIgnoreRules(subpath, ignoreRules); r.Excluded {
 			return nil
 		}
@@ -222,15 +233,6 @@ func (p *Packer) packWalkFn(root, src, dst string, tarW *tar.Writer, meta *Meta,
 					return nil
 				}
 			}
-		}
-
-		// Get the relative path from the initial root directory.
-		subpath, err = filepath.Rel(root, strings.Replace(path, src, dst, 1))
-		if err != nil {
-			return fmt.Errorf("failed to get relative path for file %q: %w", path, err)
-		}
-		if subpath == "." {
-			return nil
 		}
 
 		// Check the file type and if we need to write the body.
